@@ -18,16 +18,17 @@ import (
 	banktypes "github.com/cosmos/cosmos-sdk/x/bank/types"
 	govtypes "github.com/cosmos/cosmos-sdk/x/gov/types"
 	paramproposal "github.com/cosmos/cosmos-sdk/x/params/types/proposal"
+	upgradetypes "github.com/cosmos/cosmos-sdk/x/upgrade/types"
 	"github.com/ethereum/go-ethereum/common"
 	gethtypes "github.com/ethereum/go-ethereum/core/types"
 	"github.com/ethereum/go-ethereum/crypto"
 	"github.com/ethereum/go-ethereum/rlp"
 
+	transfertypes "github.com/cosmos/ibc-go/v3/modules/apps/transfer/types"
 	"github.com/teleport-network/teleport/app"
 	erc20contracts "github.com/teleport-network/teleport/syscontracts/erc20"
 	govcontract "github.com/teleport-network/teleport/syscontracts/gov"
 	stakingcontract "github.com/teleport-network/teleport/syscontracts/staking"
-	transfertypes "github.com/cosmos/ibc-go/v3/modules/apps/transfer/types"
 
 	aggregatetypes "github.com/teleport-network/teleport/x/aggregate/types"
 	rvestingtypes "github.com/teleport-network/teleport/x/rvesting/types"
@@ -611,6 +612,22 @@ func BuildScenario(seed int64, pow bool) (*Scenario, error) {
 		w.Roll(a)
 	}
 	sc.cover("blocks-with-vesting-enabled")
+	// the software upgrade the binary carries a handler for: governance schedules plan "v0.2", the upgrade module's
+	// BeginBlocker runs the handler at the plan height (system contract code re-set, XIBC state reset, module migrations).
+	// It comes last because it wipes what the rest of the scenario works with.
+	// (a binary that already carries the handler refuses to run while the plan is pending, so the plan must fire in the very
+	// block after the one whose EndBlock passes the proposal: submission block + 3 with sc.gov's block pattern)
+	planH := a.Header.Height + 3
+	sc.gov(upgradetypes.NewSoftwareUpgradeProposal("t", "d", upgradetypes.Plan{Name: "v0.2", Height: planH}), "software upgrade v0.2", true)
+	for i := 0; i < 16 && a.Height() <= planH; i++ {
+		w.Roll(a)
+	}
+	if done := a.App.UpgradeKeeper.GetDoneHeight(a.Ctx(), "v0.2"); done == planH {
+		sc.cover("software-upgrade-v0.2-handler-executed-in-begin-block")
+	} else {
+		sc.fail("software upgrade v0.2 was not executed (done height %d, plan height %d, height %d)", done, planH, a.Height())
+	}
+	w.Roll(a)
 	_, sc.FinalHash = a.End() // the tape now consists of complete blocks only
 	return sc, nil
 }
